@@ -191,25 +191,29 @@ Proof.
   unfold frow. destruct (Nat.ltb i (nrows f)); [|discriminate]. intros H.
   apply all_some_map_length in H. exact H.
 Qed.
-(* every function of the menu that returns a []any returns as many cells as it received *)
-Lemma apply_fn_any_length id x l : apply_fn id x = RAny l -> length l = length x.
+(* every function of the menu that returns a []any returns as many cells as it received,
+   except the two that change the length on purpose (10 shortens, 11 lengthens) *)
+Lemma apply_fn_any_length id x l : fn_keeps_length id = true ->
+  apply_fn id x = RAny l -> length l = length x.
 Proof.
-  destruct id as [|[|[|[|[|[|[|[|[|[|id]]]]]]]]]]; cbn [apply_fn]; intros H; inversion H;
+  unfold fn_keeps_length.
+  destruct id as [|[|[|[|[|[|[|[|[|[|[|[|id]]]]]]]]]]]]; cbn [apply_fn]; intros Hk H;
+    try discriminate; inversion H;
     rewrite ?rev_length, ?map_length; reflexivity.
 Qed.
-Lemma no_panic_apply_row_cells id x : apply_row_cells id (length x) x <> Panic.
+(* a row result is the cells, or (too few values returned) an error: never a panic, for any
+   function, any number of columns, any argument *)
+Lemma no_panic_apply_row_cells id nc x : apply_row_cells id nc x <> Panic.
 Proof.
-  unfold apply_row_cells. destruct (apply_fn id x) eqn:E; try discriminate.
-  apply apply_fn_any_length in E. rewrite E. rewrite Nat.leb_refl. discriminate.
+  unfold apply_row_cells. destruct (apply_fn id x) as [l|l|l|l|c|]; try discriminate.
+  destruct (Nat.leb nc (length l)); discriminate.
 Qed.
 Lemma no_panic_apply_row id f : op_apply_row id f <> Panic.
 Proof.
   unfold op_apply_row. cbv zeta.
   destruct (all_some (map (frow f) (seq 0 (nrows f)))) as [rs|] eqn:E; [|discriminate].
   apply bind_np.
-  - apply out_all_map_np. intros r Hr.
-    destruct (all_some_map_in _ _ _ _ E Hr) as [i [_ Hi]]. apply frow_length in Hi.
-    rewrite <- Hi. rewrite <- (map_length snd r). apply no_panic_apply_row_cells.
+  - apply out_all_map_np. intros r _. apply no_panic_apply_row_cells.
   - intros res _. destruct (null f); discriminate.
 Qed.
 Lemma apply_col_np id d : apply_col id d <> Panic.
@@ -638,6 +642,7 @@ Example step_extreme :
   step O0 [fr0] (ODropRow 7 0) = (Err, [fr0]) /\
   step O0 [fr0] (OHead 1 maxi) = (Err, [fr0]) /\
   step O0 [fr0] (OApply 0 7 None) = (Err, [fr0]) /\
+  step O0 [fr0] (OApply 0 10 (Some [1])) = (Err, [fr0]) /\   (* a row function returning too few values *)
   fst (step O0 [fr0] (OApply 0 1 (Some [maxi]))) = Ok (VFrame
      [(sa, (sa, [CS [120%N]; CNil; CS [121%N]])); (sb, (sb, [CI KInt 1; CI KInt 2; CNil]))]).
 Proof. vm_compute. repeat split. Qed.
